@@ -42,7 +42,8 @@ MINIMUMS = {
     'quick': {'evaluations': 3000, 'pairs:rebuild': 300, 'pairs:dict-reversed': 300, 'pairs:via-edits': 300,
               'pairs:explicit-default': 200, 'pairs:leaf': 200, 'pairs:callable': 100, 'pairs:btype': 100,
               'pairs:alias-redirected': 60, 'pairs:unshared': 60, 'mixed_key_dicts': 120,
-              'builds_compared': 1000, 'triples': 300},
+              'builds_compared': 1000, 'triples': 300, 'mixed_pairs': 1000,
+              'pairs_sharing_objects_by_identity': 200},
     'thorough': {'evaluations': 100000, 'pairs:alias-redirected': 3000, 'pairs:unshared': 3000},
 }
 
@@ -208,9 +209,16 @@ def descendants(n):
   return {x.uid for x in gen.walk(n)}
 
 
-def break_rewrite(root, kind, rng):
+def break_rewrite(root, kind, rng, want_map=False):
   """Returns a rewritten clone of root or None if the rewrite does not apply."""
-  new, _ = structural_clone(root)
+  new, cmap = structural_clone(root)
+  r = _break_rewrite(new, kind, rng)
+  if r is None:
+    return None
+  return (r, cmap) if want_map else r
+
+
+def _break_rewrite(new, kind, rng):
   rs = refs(new)
   if kind == 'leaf':
     cands = [(p, s) for p, s in rs if isinstance(get_ref(p, s), gen.Leaf)
@@ -233,6 +241,14 @@ def break_rewrite(root, kind, rng):
   if kind == 'btype':
     b = rng.choice(bs)
     b.btype = 'Partial' if b.btype == 'Config' else 'Config'
+    return new
+  if kind == 'arg-added':
+    from vf import dagedit
+    cands = [b for b in bs if dagedit.free_kw(b)]
+    if not cands:
+      return None
+    b = rng.choice(cands)
+    b.kw[rng.choice(dagedit.free_kw(b))] = gen.Leaf(rng.choice(LEAVES[:8]))
     return new
   if kind == 'arg-removed':
     cands = [b for b in bs if any(k != 'uid' for k in b.kw)]
@@ -361,11 +377,11 @@ def judge_pair(a, b, kind, expected_equal, acc, witness, feats):
 
 
 PRESERVING = ['rebuild', 'dict-reversed', 'via-edits', 'suspended', 'explicit-default',
-              'dict-reversed+via-edits', 'deepcopy']
-BREAKING = ['leaf', 'callable', 'btype', 'alias-redirected', 'unshared', 'arg-removed']
+              'dict-reversed+via-edits', 'deepcopy', 'copy.copy', 'explicit-default']
+BREAKING = ['leaf', 'callable', 'btype', 'alias-redirected', 'unshared', 'arg-removed', 'arg-added']
 
 
-def make_variant(root, kind, rng):
+def make_variant(root, kind, rng, base=None):
   opt = {}
   for part in kind.split('+'):
     opt[part] = True
@@ -377,6 +393,8 @@ def make_variant(root, kind, rng):
       return realise(root, {}, opt, rng)
   if 'deepcopy' in opt:
     return copy.deepcopy(realise(root, {}, {}, rng))
+  if 'copy.copy' in opt:
+    return copy.copy(base) if base is not None else copy.copy(realise(root, {}, {}, rng))
   return realise(root, {}, opt, rng)
 
 
@@ -440,8 +458,9 @@ def run_case(rng, acc):
     d.update(kw)
     return d
 
+  a_memo = {}
   try:
-    a = realise(root, {}, {}, rng)
+    a = realise(root, a_memo, {}, rng)
   except Exception as e:  # pylint: disable=broad-except
     acc.obs('realise-failed:' + type(e).__name__)
     return
@@ -457,7 +476,7 @@ def run_case(rng, acc):
   variants = []
   for kind in kinds_p:
     try:
-      b = make_variant(root, kind, rng)
+      b = make_variant(root, kind, rng, base=a)
     except Exception as e:  # pylint: disable=broad-except
       acc.obs(f'variant-failed:{kind}:{type(e).__name__}')
       continue
@@ -472,19 +491,38 @@ def run_case(rng, acc):
     if ab and bc[0] == 'ok' and bc[1] and ac is False:
       acc.violation('eq-not-transitive', f'a=={k1} and {k1}=={k2} but a!={k2}', witness())
   # equality-breaking variants (each a single rewrite of the abstract DAG)
+  from vf.checks.c10 import abstract_canon
   for kind in rng.sample(BREAKING, 3):
-    new_root = break_rewrite(root, kind, rng)
-    if new_root is None:
+    r = break_rewrite(root, kind, rng, want_map=True)
+    if r is None:
       acc.obs('rewrite-not-applicable:' + kind)
       continue
+    new_root, cmap = r
+    memo_b = {}
+    sharing = rng.random() < 0.4
+    if sharing:
+      # b shares the untouched sub-objects of a BY IDENTITY (e.g. a shallow copy that was edited)
+      for old_node in gen.walk(root):
+        nn = cmap.get(old_node.uid)
+        if (nn is not None and not isinstance(old_node, gen.Leaf) and old_node is not root
+            and old_node.uid in a_memo and rng.random() < 0.7
+            and abstract_canon(nn) == abstract_canon(old_node)):
+          memo_b[nn.uid] = a_memo[old_node.uid]
+      if memo_b:
+        acc.obs('pairs_sharing_objects_by_identity')
     try:
-      b = realise(new_root, {}, {}, rng)
+      b = realise(new_root, memo_b, {}, rng)
     except Exception as e:  # pylint: disable=broad-except
       acc.obs(f'variant-failed:{kind}:{type(e).__name__}')
       continue
-    judge_pair(a, b, kind, None, acc, lambda **kw: witness(rewritten=gen.sketch(new_root), **kw),
-               feats + features(new_root))
+    wit = lambda **kw: witness(rewritten=gen.sketch(new_root), shares_objects=bool(memo_b), **kw)
+    judge_pair(a, b, kind, None, acc, wit, feats + features(new_root))
     acc.case((sketch, kind, gen.sketch(new_root)), nb >= 2)
+    # mixed pair: an equality-preserving variant of a against the rewritten configuration
+    if variants:
+      pk, v, _ = rng.choice(variants)
+      judge_pair(v, b, f'{pk}~{kind}', None, acc, wit, feats + features(new_root))
+      acc.obs('mixed_pairs')
   if acc.evaluations % 500 < 6 and len(acc.samples) < 3:
     acc.sample({'dag': sketch, 'preserving': kinds_p})
 
